@@ -288,7 +288,9 @@ func genC20(g GenCtx) interface{} {
 			sc.Acts = append(sc.Acts, DAct{Op: "foreign", NS: pick(rng, "n1", "n2"), Name: "foreign" + pick(rng, "1", "2"), Labels: randLabels(rng)})
 			inflight++
 		case r < 8 && len(filt) > 0 && !small:
-			if rng.Intn(4) == 0 {
+			if rng.Intn(6) == 0 {
+				sc.Acts = append(sc.Acts, DAct{Op: "refilter-close", Node: filt[rng.Intn(len(filt))], Filter: randFilter(rng)}, DAct{Op: "check"})
+			} else if rng.Intn(4) == 0 {
 				sc.Acts = append(sc.Acts, DAct{Op: "refilter-race", Node: filt[rng.Intn(len(filt))], Filter: randFilter(rng), Filter2: randFilter(rng)}, DAct{Op: "check"})
 			} else {
 				sc.Acts = append(sc.Acts, DAct{Op: "refilter", Node: filt[rng.Intn(len(filt))], Filter: randFilter(rng)})
@@ -498,6 +500,30 @@ func runC20(sci interface{}) {
 					detsim.Fail("typed-differs:lifecycle", "node%d: typed Refilter error=%v, untyped error=%v", a.Node, e1, e2)
 				}
 				detsim.Settle()
+			}
+		case "refilter-close":
+			// a Refilter (a batch of events) with Close() right behind it: the core
+			// queues the whole batch before it handles the close request, and what is
+			// queued stays readable after Close - typed and untyped consumers must
+			// end up with the same events
+			detsim.Settle()
+			if n := get(a.Node); n != nil && n.t.Refilter != nil && n.t.Events != nil && !n.stalled && !closedAbove(n) {
+				e1 := n.t.Refilter(a.Filter.Build())
+				n.t.Close()
+				e2 := n.u.Refilter(a.Filter.Build())
+				n.u.Close()
+				n.closed = true
+				if (e1 == nil) != (e2 == nil) {
+					detsim.Fail("typed-differs:lifecycle", "node%d: typed Refilter error=%v, untyped error=%v", a.Node, e1, e2)
+				}
+				detsim.Settle()
+				detsim.Count("probe:c20-refilter-then-close")
+				if detsim.TotalDrops() == 0 {
+					ta, ub := sigsOf(n.te, false), sigsOf(n.ue, true)
+					if !sameUpToBatchOrder(ta, ub) {
+						detsim.Fail("typed-differs:events", "node%d: Refilter followed at once by Close - the typed (%s) subscriber ended up with other events than the untyped one\n  typed  : %v\n  untyped: %v (restricted to the package's type)", a.Node, sc.Kind, ta, ub)
+					}
+				}
 			}
 		case "refilter-race":
 			// two goroutines refilter the same node at the same time (either order
